@@ -347,9 +347,7 @@ def work(task):
     return acc
 
 
-def run(ctx):
-    max_mols = 3 if ctx.quick else 4
-    ctx.bound = {'molecules': max_mols, 'shapes': SHAPES}
+def run_files_layer(ctx, max_mols, name='written-files-agree'):
     cases = []
     for m in range(1, max_mols + 1):
         for seq in itertools.product(SHAPES, repeat=m):
@@ -359,7 +357,13 @@ def run(ctx):
     acc = Acc()
     for part in common.pmap(work, list(common.chunked(cases, max(1, len(cases) // 64)))):
         acc += part
-    ctx.layer('written-files-agree', acc)
+    ctx.layer(name, acc)
+
+
+def run(ctx):
+    max_mols = 3 if ctx.quick else 4
+    ctx.bound = {'molecules': max_mols, 'shapes': SHAPES}
+    run_files_layer(ctx, max_mols)
     short = ['P', 'Q', 'S', 'X']
     pairs = [(a, b) for n1 in (1, 2) for a in itertools.product(short, repeat=n1) for n2 in (1, 2, 3) for b in itertools.product(short, repeat=n2)]
     acc = Acc()
